@@ -95,7 +95,11 @@ class Checker:
         b, led = self.b, self.led
         for bid in cs.block_by_hash.keys():
             ref = led.replay_from_genesis(bid)
-            got = b.sk_utxo_plain(cs, bid)
+            try:
+                got = b.sk_utxo_plain(cs, bid)
+            except Exception as e:
+                self.fail("utxo", "utxo-query-raised", "order %s: asking for the unspent set at stored block %s raised %s" % (order_name, bid.hex()[:12], type(e).__name__))
+                continue
             if got != ref:
                 self.fail("utxo", "utxo!=replay", "order %s: unspent set at %s differs from replay-from-genesis (%d vs %d entries)" % (order_name, bid.hex()[:12], len(got), len(ref)))
             rb = led.balances(ref)
@@ -123,7 +127,11 @@ class Checker:
         ann = {k.pub: "a" for k in ks[::2]}
         unused = [k.pub for k in ks[1::2]]
         w = Wallet({k.pub: k.priv for k in ks}, unused, ann)
-        got = w.get_balance(cs)
+        try:
+            got = w.get_balance(cs)
+        except Exception as e:
+            self.fail("wallet_balance", "wallet-balance-raised", "Wallet.get_balance on the final state raised %s" % type(e).__name__)
+            return
         head = self.led.nodes[cs.current_chain_hash]
         want = sum(v for (v, pk) in head.utxo.values() if pk in {k.pub for k in ks})
         if got != want:
@@ -205,7 +213,11 @@ class Checker:
                 return None
             if snapshots:
                 bids = list(cs.block_by_hash.keys())
-                snaps.append((cs, b.coinstate_digest(cs), balances_digest(cs, bids), bids))
+                try:
+                    snaps.append((cs, b.coinstate_digest(cs), balances_digest(cs, bids), bids))
+                except Exception as e:
+                    self.fail("balances", "balance-query-raised", "order %s: querying the balances of every stored block after arrival of %s raised %r" % (name, l, e))
+                    return None
         if probe:
             self.interrupted_and_concurrent_queries(cs, name)
             self.exercise_readers(cs, name)
@@ -215,7 +227,12 @@ class Checker:
         for i, (s, d1, d2, bids) in enumerate(snaps):
             if b.coinstate_digest(s) != d1:
                 self.fail("snapshot", "snapshot-changed", "order %s: snapshot taken after arrival %d changed later" % (name, i))
-            if balances_digest(s, bids) != d2:
+            try:
+                d2now = balances_digest(s, bids)
+            except Exception as e:
+                self.fail("balances", "balance-query-raised", "order %s: querying the balances of snapshot %d again raised %r" % (name, i, e))
+                break
+            if d2now != d2:
                 self.fail("snapshot", "snapshot-balances-changed", "order %s: balances of snapshot %d changed later" % (name, i))
         return cs
 
@@ -270,6 +287,13 @@ class Checker:
         self.check_state(cs, name)
         return cs
 
+    def add_digest(self, digs, cs, name):
+        try:
+            digs.add(self.final_digest(cs))
+        except Exception as e:
+            # (check_state has normally said so already, with the block concerned)
+            self.fail("balances", "ledger-query-raised", "order #%s: asking the final state for the unspent sets and balances of all its stored blocks raised %s" % (name, type(e).__name__))
+
     def final_digest(self, cs):
         """order-independent content: per-block unspent maps + balances (head/tips may legitimately differ by order)"""
         h = hashlib.sha256()
@@ -305,11 +329,11 @@ def execute(case, rnd_orders=None):
         validated = (k % 3 == 1) or len(orders) <= 4 and k == 0
         cs = c.deliver(od, validated, "#%d%s" % (k, "v" if validated else "n"), rnd=wr, snapshots=(k < 2), probe=(k in (0, 2)))
         if cs is not None:
-            digs.add(c.final_digest(cs))
+            c.add_digest(digs, cs, k)
         if k == 0 and case.get("restart"):
             cs_r = c.restart(od, case["restart"], "#%d+restart" % k)
             if cs_r is not None:
-                digs.add(c.final_digest(cs_r))
+                c.add_digest(digs, cs_r, "%d+restart" % k)
     if len(digs) > 1:
         c.fail("orders_disagree", "orders-disagree", "%d distinct ledger contents over %d arrival orders" % (len(digs), len(orders)))
     c.stats["orders"] = len(orders)
@@ -335,7 +359,12 @@ def run(shard, tier, seed):
               phases=[hypothesis.Phase.generate])
     @given(st.randoms(use_true_random=True), st.sampled_from(chainexec.CFGS), st.one_of(st.integers(3, 6), st.integers(7, 14 if tier == "quick" else 24)))
     def prop(rnd, cfg, nb):
-        case = chainexec.gen_case(rnd, cfg, nb, 0.0, ["C01"], p_fork=0.6, p_copy=0.25, p_same_cb=0.1, p_tx=0.75, zero_rewards=True)
+        if shard["i"] == 15 and res.counters.get("trees", 0) % 4 == 0:
+            # very long trees: more than 32 blocks on one line, dead branches left more than 30 blocks behind, late children of those
+            case = chainexec.gen_case(rnd, cfg, 38 + nb % 8, 0.0, ["C01"], p_fork=0.2, p_deep_fork=0.25, deep_min=31, p_copy=0.1, p_tx=0.8, zero_rewards=True)
+            res.count("trees_longer_than_32")
+        else:
+            case = chainexec.gen_case(rnd, cfg, nb, 0.0, ["C01"], p_fork=0.6, p_copy=0.25, p_same_cb=0.1, p_tx=0.75, zero_rewards=True)
         if rnd.random() < 0.5:
             case["restart"] = [rnd.choice([1, 2, 3, 100]), rnd.choice([None, None, 3, 4, 4, 5])]
         c, fails = execute(case, rnd)
